@@ -1,7 +1,7 @@
 """C24 Query methods agree with list semantics of the full ordered result (DESIGN 4-C24)."""
 import itertools, z3
 from vf.verify import Contract, Case
-from vf.inputs import Inputs, term
+from vf.inputs import Inputs, term, same
 from vf import pyspec, logic as L
 from pony.orm import sqltranslation as st
 
@@ -52,8 +52,228 @@ def _clo_result_shape(cfg, i, path):
     return L.And(True if rl is None else term(rl) >= 0, True if ro is None else term(ro) >= 0)
 
 
+# ------------------------------------------------------------------ Query.__getitem__ / limit / page / fetch
+from pony.orm import core
+from vf.explore import cur
+from vf.proxy import SymStr
+from contracts import harness as H
+
+
+class FakeQuery(object):
+    """Stands for the Query: these methods only call query._fetch(limit, offset, lazy=...), which is recorded."""
+    def _fetch(self, limit=None, offset=None, lazy=False):
+        cur().state['fetch'] = (limit, offset, lazy)
+        return 'QueryResult'
+
+
+def _gi_configs(tier):
+    return [dict(start=a, stop=b) for a in ('none', 'int') for b in ('none', 'int')]
+
+
+def _gi_case(cfg, values):
+    I = Inputs(values)
+    a = I.int('start') if cfg['start'] == 'int' else None
+    b = I.int('stop') if cfg['stop'] == 'int' else None
+    if b is not None: I.require(term(b) >= 0)          # the property quantifies over non-negative bounds; a negative start must raise
+    n = I.ghost_int('n'); I.require(n >= 0)
+    return Case(lambda: core.Query.__getitem__(FakeQuery(), slice(a, b)), I.terms, I.pre)
+
+
+def _gi_window(cfg, i, path):
+    a = i.get('start')
+    if path.outcome == 'exc':
+        return L.And(isinstance(path.value, TypeError), a is not None and a < 0)
+    if a is not None and not isinstance(a < 0, bool) or (a is not None and isinstance(a < 0, bool) and a < 0):
+        neg = a < 0
+    else:
+        neg = False
+    limit, offset, lazy = path.state['fetch']
+    want = pyspec.py_slice(i['n'], a, i.get('stop'))
+    got = pyspec.window(i['n'], None if limit is None else term(limit), None if offset is None else term(offset))
+    return L.And(L.Not(neg), pyspec.same_window(want, got),
+                 True if limit is None else term(limit) >= 0, True if offset is None else term(offset) >= 0)
+
+
+def _page_case(cfg, values):
+    I = Inputs(values)
+    pn = I.int('pagenum'); ps = I.int('pagesize'); I.require(term(pn) >= 1); I.require(term(ps) >= 0)
+    n = I.ghost_int('n'); I.require(n >= 0)
+    return Case(lambda: core.Query.page(FakeQuery(), pn, ps), I.terms, I.pre)
+
+
+def _page_window(cfg, i, path):
+    if path.outcome != 'ret': return False
+    limit, offset, lazy = path.state['fetch']
+    n = i['n']; pn = i['pagenum']; ps = i['pagesize']
+    lo = (pn - 1) * ps
+    want = (L.Min(lo, n), L.Min(lo + ps, n))
+    got = pyspec.window(n, term(limit), term(offset))
+    return pyspec.same_window(want, got)
+
+
+def _limit_case(cfg, values):
+    I = Inputs(values)
+    l = I.int('limit') if cfg['limit'] == 'int' else None
+    o = I.int('offset') if cfg['offset'] == 'int' else None
+    m = getattr(core.Query, cfg['method'])
+    return Case(lambda: m(FakeQuery(), l, o), I.terms, I.pre)
+
+
+def _limit_passthrough(cfg, i, path):
+    if path.outcome != 'ret': return False
+    limit, offset, lazy = path.state['fetch']
+    ok = lambda got, name: (got is None) if name not in i else same(got, i[name])
+    return bool(ok(limit, 'limit') and ok(offset, 'offset') and lazy == (cfg['method'] == 'limit'))
+
+
+# ------------------------------------------------------------------ construct_sql_ast: LIMIT section on a real translator, per dialect
+def _lim_configs(tier):
+    out = []
+    for d in ('SQLite', 'PostgreSQL', 'MySQL'):
+        for m in itertools.product(['none', 'int'], repeat=4):
+            out.append(dict(dialect=d, tlimit=m[0], toffset=m[1], limit=m[2], offset=m[3]))
+    return out
+
+
+UNBOUNDED = {'SQLite': -1, 'MySQL': 18446744073709551615}
+
+
+def _lim_case(cfg, values):
+    I = Inputs(values)
+    v = {}
+    for nm in ('tlimit', 'toffset', 'limit', 'offset'):
+        if cfg[nm] == 'int':
+            v[nm] = I.int(nm); I.require(term(v[nm]) >= 0)
+        else: v[nm] = None
+    n = I.ghost_int('n'); I.require(n >= 0); I.require(n < 2 ** 64)
+    M = H.model()
+
+    def setup(run): H.push_translator(M, cfg['dialect'])
+    def teardown(run): H.pop_translator(M)
+
+    def call():
+        tr = M.tr
+        tr.limit = v['tlimit']; tr.offset = v['toffset']
+        sql_ast, attr_offsets = tr.construct_sql_ast(v['limit'], v['offset'])
+        sec = [x for x in sql_ast if isinstance(x, list) and x and x[0] == 'LIMIT']
+        return sec
+    return Case(call, I.terms, I.pre, setup, teardown)
+
+
+def _lim_semantics(cfg, i, path):
+    """LIMIT l [OFFSET o] returns rows R[o:][:l]; on SQLite -1 and on MySQL 2**64-1 mean "no limit" (n < 2**64);
+    on PostgreSQL LIMIT NULL means no limit."""
+    if path.outcome != 'ret': return False
+    n = i['n']
+    a1, b1 = pyspec.window(n, i.get('tlimit'), i.get('toffset'))
+    a2, b2 = pyspec.window(b1 - a1, i.get('limit'), i.get('offset'))
+    want = (a1 + a2, a1 + b2)
+    sec = path.value
+    if not sec:
+        got = (0, n)
+    else:
+        if len(sec) != 1: return False
+        sec = sec[0]
+        l = sec[1]; o = sec[2] if len(sec) > 2 else None
+        if l is None:
+            if cfg['dialect'] != 'PostgreSQL': return False          # 'LIMIT null' is only valid on PostgreSQL
+            lt = None
+        else:
+            lt = term(l)
+            if isinstance(lt, int) and lt == UNBOUNDED.get(cfg['dialect'], object()): lt = None
+        got = pyspec.window(n, lt, None if o is None else term(o))
+    return pyspec.same_window(want, got)
+
+
+# ------------------------------------------------------------------ SQLBuilder.LIMIT text
+def _lt_configs(tier):
+    return [dict(limit=a, offset=b) for a in ('none', 'int') for b in ('none', 'int')]
+
+
+def _lt_case(cfg, values):
+    from pony.orm import sqlbuilding as sb
+    I = Inputs(values)
+    l = I.int('limit') if cfg['limit'] == 'int' else None
+    o = I.int('offset') if cfg['offset'] == 'int' else None
+    if l is not None: I.require(term(l) >= -1)
+    if o is not None: I.require(term(o) >= 0)
+    B = type('B', (), dict(indent=0, indent_spaces='    '))      # stands for the builder: LIMIT (via @indentable) reads only .indent
+    return Case(lambda: sb.SQLBuilder.LIMIT(B(), l, o), I.terms, I.pre)
+
+
+def _lt_text(cfg, i, path):
+    if path.outcome != 'ret': return False
+    r = path.value
+    pieces = list(r.pieces) if isinstance(r, SymStr) else [('lit', r)]
+    def lit(p, t): return p[0] == 'lit' and p[1] == t
+    def num(p, name): return p[0] == 'int' and same(p[1], i[name]) and p[2] == ''
+    k = 0
+    if 'limit' in i:
+        if not (lit(pieces[0], 'LIMIT ') and num(pieces[1], 'limit')): return False
+        k = 2
+    else:
+        if not (pieces[0][0] == 'lit' and pieces[0][1].startswith('LIMIT null')): return False
+        pieces = [('lit', pieces[0][1][len('LIMIT null'):])] + pieces[1:]
+        k = 0
+    rest = pieces[k:]
+    if 'offset' in i:
+        with_off = len(rest) == 3 and lit(rest[0], ' OFFSET ') and num(rest[1], 'offset') and lit(rest[2], '\n')
+        without = len(rest) == 1 and lit(rest[0], '\n')
+        # OFFSET may be omitted exactly when it is 0
+        return L.ite(L.Eq(i['offset'], 0), without, with_off)
+    return len(rest) == 1 and lit(rest[0], '\n')
+
+
+# ------------------------------------------------------------------ DISTINCT must not depend on ordering (non-interference)
+def _dist_configs(tier):
+    return [dict(auto_distinct=a, explicit=e) for a in (True, False) for e in ('None', 'True', 'False')]
+
+
+def _dist_case(cfg, values):
+    M = H.model()
+
+    def setup(run): H.push_translator(M, 'SQLite')
+    def teardown(run): H.pop_translator(M)
+
+    def call():
+        tr = M.tr
+        tr.distinct = cfg['auto_distinct']
+        explicit = {'None': None, 'True': True, 'False': False}[cfg['explicit']]
+        out = []
+        for order in ([], [['COLUMN', 'p', 'id']]):
+            tr.order = order
+            ast_, _ = tr.construct_sql_ast(None, None, explicit)
+            sel = [x for x in ast_ if isinstance(x, list) and x and x[0] in ('ALL', 'DISTINCT')][0][0]
+            out.append(sel)
+        return out
+    return Case(call, {}, [], setup, teardown)
+
+
+def _dist_spec(cfg, i, path):
+    if path.outcome != 'ret': return False
+    unordered, ordered = path.value
+    want = {'None': cfg['auto_distinct'], 'True': True, 'False': False}[cfg['explicit']]
+    return unordered == ('DISTINCT' if want else 'ALL') and ordered == unordered
+
+
 CONTRACTS = [
     Contract('combine_limit_and_offset', 'pony.orm.sqltranslation:combine_limit_and_offset', _clo_configs, _clo_case,
              [('windows_compose', _clo_windows_compose), ('result_nonnegative', _clo_result_shape)],
              doc='R[o:][:l][o2:][:l2] == R[O:][:L] for every list length n and all non-negative bounds'),
+    Contract('Query.__getitem__', 'pony.orm.core:Query.__getitem__', _gi_configs, _gi_case, [('requests_the_python_slice_window', _gi_window)],
+             allowed_exc=(TypeError,), doc='q[a:b] requests exactly R[a:b] (limit/offset) for all a, b >= 0 or omitted; negative start raises'),
+    Contract('Query.page', 'pony.orm.core:Query.page', [dict()], _page_case, [('requests_the_page_window', _page_window)],
+             doc='page(k, size) requests R[(k-1)*size : k*size] for all k >= 1, size >= 0'),
+    Contract('Query.limit_fetch', ['pony.orm.core:Query.limit', 'pony.orm.core:Query.fetch'],
+             [dict(method=m, limit=a, offset=b) for m in ('limit', 'fetch') for a in ('none', 'int') for b in ('none', 'int')], _limit_case,
+             [('passes_bounds_through', _limit_passthrough)]),
+    Contract('construct_sql_ast.LIMIT', 'pony.orm.sqltranslation:SQLTranslator.construct_sql_ast', _lim_configs, _lim_case,
+             [('limit_section_denotes_composed_window', _lim_semantics)],
+             doc='real translator, provider.dialect overridden; translator.limit/offset (from a limited subquery) composed with the requested window',
+             assumptions=['LIMIT l OFFSET o selects R[o:][:l]; SQLite LIMIT -1, MySQL LIMIT 2**64-1 and PostgreSQL LIMIT NULL mean no limit (result shorter than 2**64 rows)']),
+    Contract('SQLBuilder.LIMIT', 'pony.orm.sqlbuilding:SQLBuilder.LIMIT', _lt_configs, _lt_case, [('text_is_limit_offset_in_order', _lt_text)],
+             doc='LIMIT <limit> [OFFSET <offset>] with the numbers in that order; OFFSET omitted iff 0'),
+    Contract('construct_sql_ast.DISTINCT', 'pony.orm.sqltranslation:SQLTranslator.construct_sql_ast', _dist_configs, _dist_case,
+             [('select_mode_independent_of_ordering', _dist_spec)],
+             doc='ordering a query must only permute its result: the DISTINCT/ALL decision must not read translator.order'),
 ]
